@@ -137,8 +137,8 @@ class FuncRun(FunctionEngine):
         nret = 0
         for (cur, o) in results:
             if o.kind == 'normal':
-                o.val = self.const(None)
-                o.kind = 'return'
+                from .engine import Outcome
+                o = Outcome('return', val=self.const(None))   # never mutate the shared NORMAL outcome
             if o.kind in ('break', 'continue'):
                 raise Unsupported('break/continue outside loop')
             if o.kind == 'return':
@@ -154,7 +154,7 @@ class FuncRun(FunctionEngine):
             t = parse_type(c['returns'])
             val = self.materialize_empty(val, t, cur) if t.is_container else val
             cv = self.coerce(val, t, cur, 'return value')
-            if val.loc is not None:
+            if val.loc is not None and cv.loc is None:
                 cv = V(cv.ty, cv.t, val.loc)
             return cv
         return val
@@ -250,12 +250,27 @@ class FuncRun(FunctionEngine):
                 was = z3.Const(f'fld0!{key}', arr.sort())
             if z3.eq(arr, was) or key in whole:
                 continue
+            fty = cur.field_ty[key]
+            label = f'field {key} unchanged' + (' except listed' if allowed.get(key) else '')
+            # the field map is a chain of point updates of the initial map: it suffices that every written location
+            # is allowed or was written back with its old value (quantifier-free; gives counter-models)
+            writes = []
+            base = arr
+            while z3.is_app(base) and base.decl().kind() == z3.Z3_OP_STORE:
+                writes.append((base.arg(1), base.arg(2)))
+                base = base.arg(0)
+            if z3.eq(base, was):
+                goals = []
+                for (idx, val) in writes:
+                    exc = [idx != o for o in allowed.get(key, [])]
+                    eq = self.equals(V(fty, z3.Select(arr, idx)), V(fty, z3.Select(was, idx)), cur)
+                    goals.append(z3.Implies(And(*exc), eq))
+                self.emit(cur, 'frame', label, And(*goals), tag='property')
+                continue
             r = z3.Const(fresh_name('r'), T.RefSort)
             exc = [r != o for o in allowed.get(key, [])]
-            fty = cur.field_ty[key]
             eq = self.equals(V(fty, T.Sel(arr, r)), V(fty, T.Sel(was, r)), cur)
-            self.emit(cur, 'frame', f'field {key} unchanged' + (' except listed' if exc else ''),
-                      z3.ForAll([r], z3.Implies(And(*exc), eq)), tag='property')
+            self.emit(cur, 'frame', label, z3.ForAll([r], z3.Implies(And(*exc), eq)), tag='property')
 
 
 # ---------------------------------------------------------------------------------------- discharge
